@@ -432,8 +432,35 @@ def regression_cases():
         cfg = 'config-variables:\n  - &p FOO\npaths:\n  "**/*.yml":\n    ignore:\n      - %s\n' % elem
         out.append((make_case(len(out), 'config', {WF: wf_with(), '.github/actionlint.yaml': cfg}, DISABLE + ['{ROOT}/' + WF]),
                     exp, 'undiagnosed:config:paths.*.ignore[]'))
+    # `!!null` tagged collections with null children in metadata files (nil map entries / zero regexp)
+    act = ('name: a\ndescription: d\ninputs: !!null\n  a: null\noutputs: !!null\n  o: null\nruns:\n  using: composite\n'
+           '  steps:\n    - run: echo\n      shell: bash\n')
+    actcaller = 'on: push\njobs:\n  j:\n    runs-on: ubuntu-latest\n    steps:\n      - uses: ./act\n        with:\n          undefined: x\n'
+    out.append((make_case(len(out), 'action', {WF: actcaller, 'act/action.yml': act}, DISABLE + ['{ROOT}/' + WF]),
+                ('clean', 'diag'), 'undiagnosed:action:regression'))
+    callee = ('on:\n  workflow_call:\n    inputs: !!null\n      a: null\n    secrets: !!null\n      s: null\n    outputs: !!null\n      o: null\n'
+              'jobs:\n  j:\n    runs-on: ubuntu-latest\n    steps:\n      - run: echo\n')
+    caller2 = ('on: push\njobs:\n  c:\n    uses: ./.github/workflows/callee.yml\n    with:\n      undefined: x\n    secrets:\n      nosuch: y\n')
+    out.append((make_case(len(out), 'reusable', {WF: caller2, '.github/workflows/callee.yml': callee}, DISABLE + ['{ROOT}/' + WF]),
+                ('clean', 'diag'), 'undiagnosed:reusable:regression'))
+    dirty = wf_with(step_extra='      - run: echo ${{ nosuchcontext.x }}\n')
+    for elem in ('!!null [null]', '!!null [{a: b}]', '!!null [[x]]'):
+        cfg = 'paths:\n  "**/*.yml":\n    ignore: %s\n' % elem
+        out.append((make_case(len(out), 'config', {WF: dirty, '.github/actionlint.yaml': cfg}, DISABLE + ['{ROOT}/' + WF]),
+                    ('clean', 'diag', 'fatal'), 'undiagnosed:config:regression'))
+    # invalid local reusable workflow call in files that belong to no project (null caches)
+    bad = 'on: push\njobs:\n  c:\n    uses: ./foo.yml@main\n'
+    c = make_case(len(out), 'workflow', {}, DISABLE + ['{OUT}/a.yml', '{OUT}/b.yml'])
+    c['out'] = {'a.yml': b64(bad), 'b.yml': b64(bad)}
+    out.append((c, ('clean', 'diag'), 'undiagnosed:workflow:regression'))
+    # a called workflow whose `on:` merges itself and has no workflow_call
+    selfm = 'on: &a\n  <<: *a\n  push:\njobs:\n  j:\n    runs-on: ubuntu-latest\n    steps:\n      - run: echo\n'
+    out.append((make_case(len(out), 'reusable', {WF: CALLER, '.github/workflows/callee.yml': selfm}, DISABLE + ['{ROOT}/' + WF]),
+                ('clean', 'diag'), 'undiagnosed:reusable:regression'))
     return out
 
+
+QUICK_SAMPLE = 2      # quick tier: one of QUICK_SAMPLE vectors of the bulky mutation kinds
 
 TOOLS = ['-shellcheck', '{SELF} robust-tool sc', '-pyflakes', '{SELF} robust-tool py']
 BOUND = 64 << 10
@@ -549,6 +576,13 @@ def run(ck, tier):
         export, vecs = generate(ck, cfg, 'Robust generator: ' + label)
         export_path = os.path.join(sd, 'export.json')
         json.dump(export, open(export_path, 'w'))
+        if tier == 'quick':
+            # the bulky kinds are sampled by seed in the quick tier (every kind, position and channel keeps vectors;
+            # the thorough tier runs all of them)
+            bulky = ('scalar', 'map', 'seq', 'recog', 'key', 'multi')
+            n0 = len(vecs)
+            vecs = [v for i, v in enumerate(vecs) if v['mut'] not in bulky or (i + seed) % QUICK_SAMPLE == 0]
+            ck.cov.setdefault('quick_sampled', {})[cfg] = '%d of %d generated vectors run' % (len(vecs), n0)
         variants(vecs, tier, seed)
         # every configuration is also applied to a workflow that HAS a diagnostic (the `ignore` patterns are only
         # used then); these copies are judged by their outcome class alone
